@@ -149,6 +149,13 @@ def mkret(ffi, lib, t, spec):
         return ffi.new(t + " *", [mkret(ffi, lib, ft, fs) for (fn, ft), fs in zip(cc.STRUCTS[t], spec[1])])[0]
     if k == "union":         # union cdata whose first member has the given value
         return ffi.new(t + " *", [mkret(ffi, lib, cc.UNIONS[t][1], spec[1])])[0]
+    if k == "structp":       # PARTIAL list initializer (plain Python list): the first len(spec[1]) fields
+        return [mkret(ffi, lib, ft, fs) for (fn, ft), fs in zip(cc.STRUCTS[t], spec[1])]
+    if k == "structd":       # PARTIAL dict initializer naming some fields
+        types = dict(cc.STRUCTS[t])
+        return dict((fn, mkret(ffi, lib, types[fn], fs)) for fn, fs in spec[1])
+    if k == "unionp":        # list initializer of a union: sets the first member only
+        return [mkret(ffi, lib, cc.UNIONS[t][1], spec[1])]
     if k == "list":
         return [mkret(ffi, lib, None, s) for s in spec[1]]
     if k == "obj":
@@ -190,6 +197,12 @@ def run_scenario(ffi, lib, sigs, sc, progress):
         kw["error"] = mkret(ffi, lib, R, sc["error"])
     if sc["onerror"][0] != "none":
         kw["onerror"] = onerror
+    if sc.get("dirty"):
+        # the error value is stored in a fresh bytes object of max(sizeof(result), 8) bytes: make it likely that this
+        # block is recycled memory that is not zero
+        n = max(csize(R), 8)
+        junk = [bytes([0xA5]) * n for _ in range(8)]
+        del junk
     out = ffi.new("unsigned char[64]", b"\xee" * 64)
     hook = Hook()
     old_hook, old_err = sys.unraisablehook, sys.stderr
